@@ -161,7 +161,6 @@ def create (d : Design) (design : List Nat) (insts : List CrossInst) (old : List
   -- MinimumTrials is rounded up to a multiple of every sustain count
   let minT := insts.foldl (fun m i => if i.sustain = 0 then m else ceilDiv m i.sustain * i.sustain) minT
   let maxPre := pres.foldl max 0
-  let designPre := (design.map (fun f => if isComplex d f then start d f else 0)).foldl max 0
   let required :=
     match align with
     | .postPreamble =>
@@ -170,7 +169,7 @@ def create (d : Design) (design : List Nat) (insts : List CrossInst) (old : List
     | _ => ((pres.zip sizes).map (fun p => p.1 + p.2)).foldl max 0
   let n := max (max minT required) 1
   let starts := match align with
-    | .postPreamble => insts.map (fun _ => max maxPre designPre)
+    | .postPreamble => insts.map (fun _ => maxPre)
     | _ => pres
   let weights := (insts.zip (starts.zip sizes)).map (fun p =>
     if mode == .repeat then p.1.weight else ceilDiv (n - p.2.1) p.2.2)
@@ -178,7 +177,7 @@ def create (d : Design) (design : List Nat) (insts : List CrossInst) (old : List
   let preBad := align == .equalPreamble && pres.any (fun p => p ≠ pres.headD 0)
   let zeroSize := sizes.any (· == 0)
   let common := match align with
-    | .postPreamble => max maxPre designPre
+    | .postPreamble => maxPre
     | _ => pres.headD 0
   let newScoped : List Scoped := new.map (fun c => { c := c, scope := some (n, common), sustain := 1 })
   { design := design
@@ -271,6 +270,9 @@ def levelsOfArg (d : Design) (f : Nat) (l : Option Nat) : List Nat :=
   | some i => [i]
   | none => List.range (numLevels d f)
 
+def sustainOf (g : Geo) (f : Nat) : Nat :=
+  ((g.crossings.find? (fun i => i.factors.contains f)).map (·.sustain)).getD 1
+
 /-- A constraint on one of its windows `[a, b)`. -/
 def holdsOn (d : Design) (g : Geo) (s : Seq) (sc : Scoped) (a b : Nat) : Bool :=
   let col := fun f => slice (s.col f) a (min b g.n)
@@ -278,7 +280,7 @@ def holdsOn (d : Design) (g : Geo) (s : Seq) (sc : Scoped) (a b : Nat) : Bool :=
   | .exclude _ _ => true           -- global, checked separately
   | .minTrials _ => true           -- part of the trial count
   | .pin idx f l =>
-    let c := sc.sustain
+    let c := sustainOf g f
     let t : Int := if idx < 0 then (b : Int) + (c : Int) * idx else (a : Int) + (c : Int) * idx
     if t < (a : Int) || t ≥ (b : Int) then false
     else (List.range c).all (fun i => s.at f (t.toNat + i) == some l)
@@ -287,9 +289,6 @@ def holdsOn (d : Design) (g : Geo) (s : Seq) (sc : Scoped) (a b : Nat) : Bool :=
   | .exactlyInARow k f l => (levelsOfArg d f l).all (fun l => (runs l (col f)).all (· == k))
   | .exactlyK k f l => (levelsOfArg d f l).all (fun l => ((col f).filter (· == some l)).length == k * sc.sustain)
   | .sequential _ => true          -- global, checked separately
-
-def sustainOf (g : Geo) (f : Nat) : Nat :=
-  ((g.crossings.find? (fun i => i.factors.contains f)).map (·.sustain)).getD 1
 
 /-- Sequential: levels in order from the start of the factor's crossing. -/
 def sequentialOk (d : Design) (g : Geo) (s : Seq) (f : Nat) : Bool :=
